@@ -424,6 +424,13 @@ Proof.
   rewrite forallb_forall in *. intros c Hc. specialize (H c Hc). apply andb_true_iff in H as [_ H]. exact H.
 Qed.
 
+Lemma norm_name_ok n : name_ok n = true -> norm_name n = n.
+Proof.
+  intro H. unfold norm_name. unfold name_ok in H. apply andb_true_iff in H as [H0 K]. apply negb_true_iff in K. rewrite K.
+  unfold name_ok0 in H0. apply andb_true_iff in H0 as [_ S]. apply negb_true_iff in S.
+  destruct n as [|c r]; [reflexivity|]. cbn [startswith] in *. rewrite andb_true_r in S. rewrite S. reflexivity.
+Qed.
+
 (* the current entry after seeing a line for parameter [n] *)
 Definition cur_entry (s : pstate) (n : str) : pentry :=
   match st_cur s with Some (n0, e0) => if str_eqb n0 n then e0 else empty_entry | None => empty_entry end.
@@ -459,7 +466,7 @@ Proof.
     replace (Z.of_nat (length tok) + Z.of_nat (length (SP :: n)) + 1)%Z with (Z.of_nat (length (tok ++ SP :: n ++ [COLON])))
       by (rewrite !app_length; cbn [length]; rewrite app_length; cbn [length]; lia).
     apply slice_from_app. }
-  rewrite V. unfold params_after, cur_entry.
+  rewrite V, (norm_name_ok n Hn). unfold params_after, cur_entry.
   destruct (st_cur s) as [[n0 e0]|]; [destruct (str_eqb n0 n)|]; destruct is_typ; reflexivity.
 Qed.
 
